@@ -11,7 +11,7 @@
    (harness/props/c01.py). *)
 From Coq Require Import NArith List Bool Permutation.
 Import ListNotations.
-From CXV Require Import Gen.TokTy Parse.Declarator Parse.DeclSpec.
+From CXV Require Import Gen.TokTy Gen.ParserTables Parse.Balanced Parse.Declarator Parse.DeclSpec.
 Open Scope N_scope.
 
 Record mods := mkMods {
@@ -267,3 +267,14 @@ Proof.
   destruct m as [c v ce ex il st xp vi mu]; unfold validate; cbn.
   destruct var_ok, meth_ok, ce, ex, il, st, xp, vi, mu; reflexivity.
 Qed.
+
+(* the keyword sets the model hard-codes are the regenerated sets of the code
+   (Gen/ParserTables.v: _type_kwd_both, _type_kwd_meth, _parse_type_ptr_ref_paren) *)
+Definition same_set (a b : list N) : bool :=
+  forallb (fun x => memN x b) a && forallb (fun x => memN x a) b.
+Definition spec_sets_ok : bool :=
+  same_set type_kwd_both [T_const; T_constexpr; T_extern; T_inline; T_static]
+  && same_set type_kwd_meth [T_explicit; T_virtual]
+  && same_set parse_type_ptr_ref_paren [STAR; AMP; T_DBL_AMP; LP].
+Lemma spec_sets_ok_true : spec_sets_ok = true.
+Proof. vm_compute. reflexivity. Qed.
